@@ -145,7 +145,7 @@ def check_C05(tier, seed):
 
 def check_C06(tier, seed):
     L = 4 if tier == "quick" else 6
-    return simple_check("C06", tier, seed, lambda t: gen.iter_scenarios(gen.ALL_SHAPES, L), mon_c06, ["Soa.Props.C06"],
+    return simple_check("C06", tier, seed, lambda t: gen.iter_scenarios(gen.ALL_SHAPES, L), mon_c06, ["Soa.Props.C06", "Soa.Lemmas.SkelIterTie", "Soa.Lemmas.SkelRead.C06"],
                         model=MODEL["C06"], widen_fn=lambda: gen.iter_scenarios(gen.ALL_SHAPES, 6), extra_cov={"exhaustive": True})
 
 def check_C07(tier, seed):
